@@ -117,6 +117,10 @@ def run(repo):
         bound_names = {}
         for n in walk_no_nested(fi.node):
             if isinstance(n, ast.Assign) and len(n.targets) == 1 and isinstance(n.targets[0], ast.Name):
+                if isinstance(n.value, (ast.Dict, ast.Tuple, ast.List, ast.Set)) or \
+                        (isinstance(n.value, ast.Call) and isinstance(n.value.func, ast.Name) and
+                         n.value.func.id in ('dict', 'tuple', 'zip', 'OrderedDict')):
+                    continue          # a container that merely holds the bound vectors (keyword arguments, pairs)
                 for x in ast.walk(n.value):
                     if isinstance(x, ast.Attribute) and isinstance(x.value, ast.Name) and x.value.id == root \
                             and x.attr in ('lb', 'ub'):
@@ -176,6 +180,51 @@ def run(repo):
                                      'parameters of this call leak into every later solve in the process (another '
                                      'model then stops at a limit it never asked for)' % (fi.fq, ntext(n)[:40]),
                                      repo.where(fi, n), PROPS))
+        # (b4) the three multiplier arrays are scattered back from the solver's output, each on its own: a store into one
+        #      of them that is computed from another one (or from itself and another) re-distributes multipliers between
+        #      bounds with the interface's own sign conventions -- upi already holds the negated upper-bound multiplier
+        mult = {}
+        for n in walk_no_nested(fi.node):
+            if isinstance(n, ast.Dict):
+                for k_, v_ in zip(n.keys, n.values):
+                    if isinstance(k_, ast.Constant) and k_.value in ('pi', 'upi', 'lpi') and isinstance(v_, ast.Name):
+                        mult[v_.id] = k_.value
+            elif isinstance(n, ast.Call) and isinstance(n.func, ast.Name) and n.func.id == 'dict':
+                for k_ in n.keywords:
+                    if k_.arg in ('pi', 'upi', 'lpi') and isinstance(k_.value, ast.Name):
+                        mult[k_.value.id] = k_.arg
+        if mult:
+            local_defs = {}
+            for n in walk_no_nested(fi.node):
+                if isinstance(n, ast.Assign) and len(n.targets) == 1 and isinstance(n.targets[0], ast.Name):
+                    local_defs.setdefault(n.targets[0].id, []).append(n.value)
+
+            def reads(e, depth=0, seen=None):
+                seen = seen if seen is not None else set()
+                out = set()
+                for x in ast.walk(e):
+                    if isinstance(x, ast.Name):
+                        if x.id in mult:
+                            out.add(x.id)
+                        elif x.id not in seen and depth < 3:
+                            seen.add(x.id)
+                            for v_ in local_defs.get(x.id, []):
+                                out |= reads(v_, depth + 1, seen)
+                return out
+            for n in walk_no_nested(fi.node):
+                if isinstance(n, ast.Assign) and len(n.targets) == 1 and isinstance(n.targets[0], ast.Subscript) and \
+                        isinstance(n.targets[0].value, ast.Name) and n.targets[0].value.id in mult:
+                    tgt = n.targets[0].value.id
+                    others = sorted(reads(n.value) - {tgt})
+                    ok_m = not others
+                    res.inst({'interface': fi.fq, 'multiplier_store': ntext(n)[:60], 'from_solver_output_only': ok_m}, ok_m)
+                    if not ok_m:
+                        res.fail(Finding(RULE, fi.fq, 'multipliers recombined: ' + ntext(n)[:50],
+                                         '%s rewrites entries of `%s` (%s) from %s after the read-back: the arrays carry '
+                                         'different sign conventions (upi is the negated upper-bound multiplier), so a net '
+                                         'of the two computed here moves weight to the wrong bound'
+                                         % (fi.fq, tgt, mult[tgt], ', '.join('`%s` (%s)' % (o, mult[o]) for o in others)),
+                                         repo.where(fi, n), {'props': ['C14', 'C11']}))
         # (c)
         par = parents(fi.node)
         calls = solution_calls(repo, fi)
